@@ -6,8 +6,8 @@
    "Returns normally" is [<> Panic] / [= Ok _]; no statement below carries a
    size bound or a well-formedness hypothesis on the PDU content. *)
 (* Model.AccessorsRun: the glue the generated cases evaluate, built with this file *)
-From V Require Import Model.Accessors Model.AccessorsRun Gen.AccessorTables Spec.CombinerSpec
-  Proofs.CombinerProofs Proofs.AccessorsProofs Proofs.AccessorTables.
+From V Require Import Model.Accessors Model.AccessorsRun Model.CombinerRun Gen.AccessorTables Spec.CombinerSpec
+  Proofs.CombinerProofs Proofs.AccessorsProofs Proofs.AccessorTables Proofs.CombinerRound5.
 Open Scope N_scope.
 
 (* Every accessor on every value ReadPDU can return, for any transport content
@@ -36,6 +36,24 @@ Theorem C11_combiner_on_read_pdus : forall layouts (reads : list (stream * list 
   forall h, h = flat_map (fun sv => match dsm_of 0 (snd sv) with Some d => [d] | None => [] end) reads ->
   forall r, crun r h <> Panic.
 Proof. exact combiner_on_read_pdus. Qed.
+
+(* "a segment number of zero or above the announced total ... yields an ignored segment": such a
+   segment leaves the registry exactly as it was and makes no callback, in any registry state; so does a
+   run of ANY length of them (any totals, one key or many), and what follows is handled as if the run
+   had not happened — no counter, no record of them exists to overflow.  The generated runs
+   ([ignored_segs], the histories of the chk_ignored cases) are of that kind. *)
+Theorem C11_ignored_segment : forall r p, ill_numbered p -> cstep r p = Ok (r, []).
+Proof. exact cstep_ill_numbered. Qed.
+Theorem C11_ignored_run : forall r h, Forall ill_numbered h -> crun r h = Ok (r, map (fun _ => []) h).
+Proof. exact crun_ill_numbered. Qed.
+Theorem C11_after_ignored_run : forall r h1 h2, Forall ill_numbered h1 ->
+  crun r (h1 ++ h2) = match crun r h2 with
+                      | Ok (r', outs) => Ok (r', map (fun _ => []) h1 ++ outs)
+                      | Err e => Err e | Panic => Panic end.
+Proof. exact crun_after_ill_numbered. Qed.
+Theorem C11_generated_runs_are_ignored : forall form src dst rm tm km lo n, lo < 65536 ->
+  Forall ill_numbered (ignored_segs form src dst rm tm km lo n).
+Proof. exact ignored_segs_ill. Qed.
 
 (* MessageState.String for every value *)
 Theorem C11_msgstate : forall b, exists s, message_state_string b = Ok s.
